@@ -414,6 +414,9 @@ func runWireCase(t *testing.T, r *rep.Reporter, c *rep.Case, ci int) {
 		if ch.Annotated {
 			ann = "annotated"
 		}
+		if ch.BareGoSMTP {
+			ann = "plain-go-smtp-error"
+		}
 		// (a) classes agree — promised for every chain
 		if !rp.HasEnh {
 			c.Violation("wire/no-enhanced-code/"+ch.Group+"/"+ann, fmt.Sprintf("reply %q carries no enhanced status code", rp), ob)
@@ -462,6 +465,9 @@ func runWireCase(t *testing.T, r *rep.Reporter, c *rep.Case, ci int) {
 				k := ch.MsgKind
 				if !ch.Annotated {
 					k = "unannotated"
+				}
+				if ch.BareGoSMTP {
+					k += "/plain-go-smtp-error"
 				}
 				c.Violation("wire/non-ascii-reply-without-smtputf8/"+k, fmt.Sprintf("reply %q contains bytes >= 0x80 although SMTPUTF8 was not negotiated", rp), ob)
 			}
